@@ -711,26 +711,25 @@ def bounded(tier, seed):
         rot += 1
         mine = combos if t not in d3 else [combos[(rot + 5 * j) % 18] for j in range(4)]
         for style, spacing, quoting in mine:
-                if True:
-                    text = render(t, style, spacing, quoting)
-                    if text in seen:
-                        continue
-                    seen.add(text)
-                    cls = kf_class(t, text)
-                    chk = lambda n: n + ("/" + cls if cls else "")
-                    b.case(text, nontrivial=t[0] != "atom" and t[0] != "not")
-                    inp = {"expression": text, "tree": repr(t)[:300]}
-                    try:
-                        flt = flowfilter.parse(text)
-                    except Exception as e:
-                        b.fail(chk("parse.accepts"), inp, f"{type(e).__name__}: {e}")
-                        continue
-                    try:
-                        got = [bool(flt(f)) for f in flows]
-                    except Exception as e:
-                        b.fail(chk("eval.total"), inp, f"{type(e).__name__}: {e}")
-                        continue
-                    if got != expected:
-                        i = [j for j in range(len(flows)) if got[j] != expected[j]][0]
-                        b.fail(chk("eval.verdict_equals_documented_semantics"), dict(inp, flow=i), f"flow #{i} ({type(flows[i]).__name__}): expected {expected[i]}, got {got[i]}")
+            text = render(t, style, spacing, quoting)
+            if text in seen:
+                continue
+            seen.add(text)
+            cls = kf_class(t, text)
+            chk = lambda n: n + ("/" + cls if cls else "")
+            b.case(text, nontrivial=t[0] != "atom" and t[0] != "not")
+            inp = {"expression": text, "tree": repr(t)[:300]}
+            try:
+                flt = flowfilter.parse(text)
+            except Exception as e:
+                b.fail(chk("parse.accepts"), inp, f"{type(e).__name__}: {e}")
+                continue
+            try:
+                got = [bool(flt(f)) for f in flows]
+            except Exception as e:
+                b.fail(chk("eval.total"), inp, f"{type(e).__name__}: {e}")
+                continue
+            if got != expected:
+                i = [j for j in range(len(flows)) if got[j] != expected[j]][0]
+                b.fail(chk("eval.verdict_equals_documented_semantics"), dict(inp, flow=i), f"flow #{i} ({type(flows[i]).__name__}): expected {expected[i]}, got {got[i]}")
     return b
